@@ -274,4 +274,41 @@ theorem alloc_size_exact_partial (initial max : Nat) (h : max < 65536)
   simp
   omega
 
+/-- **The regenerated code is linearizable** (any number of threads, deltas, interleavings; next to arbitrary
+    read-only operations) — unless it fails the discipline check, in which case
+    `grow_lost_update_counterexample` shows the violation.  On a tree where `ReadsUnderLock Gen.growSteps`
+    evaluates to `true` (driver `gstatus`: `rul 1`) the first disjunct is refutable by `decide`, i.e. this is
+    `grow_linearizable` for what /repo's wasmMemoryGrow does now. -/
+theorem grow_linearizable_gen (cfg : Cfg) (m0 : Mem) (hs : cfg.imm.shared = true)
+    (hmax : cfg.imm.maxPages ≤ 65536) (h0 : m0.pages ≤ cfg.imm.maxPages)
+    (hg : ∀ t, cfg.isGrow t = true → cfg.prog t = Gen.growSteps ∧ cfg.arg t < 4294967296)
+    (hr : ∀ t, cfg.isGrow t = false → ReadOnly (cfg.prog t) = true) :
+    ReadsUnderLock Gen.growSteps = false ∨
+    (WF cfg m0 ∧ ∀ s, Reachable cfg m0 s → Linearizable cfg m0 s ∧ s.1.mem.data = m0.data ∧
+      (s.1.mutex = none → s.1.mem.pages ≤ cfg.imm.maxPages ∧ SizeInv m0 s.1.mem)) := by
+  rcases gen_grow_discipline with ⟨h1, h2⟩ | h
+  · refine Or.inr ?_
+    have wf : WF cfg m0 :=
+      ⟨hs, h0, fun t ht => by rw [(hg t ht).1]; exact h1,
+        fun t ht => by rw [(hg t ht).1]; exact h2 cfg.imm hs hmax _ (hg t ht).2, hr⟩
+    exact ⟨wf, fun s h => ⟨grow_linearizable cfg m0 wf s h, grow_bounds cfg m0 wf s h⟩⟩
+  · exact Or.inl h
+
+/-! ### current tree (after /repo commit 07872f3): the regenerated wasmMemoryGrow passes the check.
+   These two are the obligations a regression of the fix breaks (moving a read of `pages` out of the critical
+   section makes `decide` fail; the C18 check then replays the lost-update schedule on the real header). -/
+
+theorem gen_reads_under_lock : ReadsUnderLock Gen.growSteps = true := by decide
+
+/-- `grow_linearizable` + `grow_bounds` for what /repo's wasmMemoryGrow does now, unconditionally -/
+theorem grow_linearizable_current (cfg : Cfg) (m0 : Mem) (hs : cfg.imm.shared = true)
+    (hmax : cfg.imm.maxPages ≤ 65536) (h0 : m0.pages ≤ cfg.imm.maxPages)
+    (hg : ∀ t, cfg.isGrow t = true → cfg.prog t = Gen.growSteps ∧ cfg.arg t < 4294967296)
+    (hr : ∀ t, cfg.isGrow t = false → ReadOnly (cfg.prog t) = true) :
+    ∀ s, Reachable cfg m0 s → Linearizable cfg m0 s ∧ s.1.mem.data = m0.data ∧
+      (s.1.mutex = none → s.1.mem.pages ≤ cfg.imm.maxPages ∧ SizeInv m0 s.1.mem) := by
+  rcases grow_linearizable_gen cfg m0 hs hmax h0 hg hr with h | h
+  · rw [gen_reads_under_lock] at h; cases h
+  · exact h.2
+
 end W2c2Verif.Props.C18
